@@ -74,3 +74,4 @@ LEVEL = {
 CFG['rule'] = CFG['rule'] + ' ' + 'Every pair starts with the same-name life cycle: both users create a collection of the same name, both fill it, one deletes it (the other must keep all of hers), then the other way round.'
 
 CFG['rule'] = CFG['rule'] + ' ' + 'Pairs of pattern-like ids were added ("*", "a?ice", "team[a-z]", "al*", "a.ice", "%s", "b{o,x}b" against ids they match).'
+CFG['rule'] = CFG['rule'] + ' ' + "Every pair scenario also tries a collection id that is a path into the other user's collection (create / fill / delete, then the victim reads); pairs in which one id continues the other after a separator character (: | # ; , = ~ @ +), with the attacker addressing '<rest><sep><collection>'."
